@@ -10,6 +10,9 @@ pid, var = args[0].upper(), args[1]
 opts = dict(a[2:].split("=", 1) if "=" in a else (a[2:], "1") for a in sys.argv[1:] if a.startswith("--"))
 src = opts.get("src", "/tmp/seed_%s/%s" % (pid, var))
 dst = os.path.join(ROOT, "seeded", "%s-%s" % (pid, var))
+if not os.path.exists(os.path.join(src, "patch.diff")):
+    src = dst       # re-verification of a change that is already kept under seeded/
+assert os.path.exists(os.path.join(src, "patch.diff")), "no patch.diff in " + src
 checks = opts.get("checks", pid).split(",")
 tier = opts.get("tier", "quick")
 wt = "/tmp/sv_%s_%s" % (pid, var)
@@ -42,7 +45,7 @@ try:
     meta["caught_by"] = [x["check"] for x in meta["ran"] if x["rc"] == 1]
     os.makedirs(dst, exist_ok=True)
     for f in ("patch.diff", "demo.py", "notes.md"):
-        if os.path.exists(os.path.join(src, f)):
+        if os.path.exists(os.path.join(src, f)) and os.path.abspath(src) != os.path.abspath(dst):
             shutil.copy(os.path.join(src, f), dst)
     if meta.get("patch_applies"):
         # store the patch re-based on the current /repo HEAD so that `git -C /repo apply` keeps working
